@@ -23,7 +23,8 @@ func genBatchRetry(r *rng, thorough bool, emit func(FlowScenario)) {
 						}
 						for rep := 0; rep < reps; rep++ {
 							t.next, t.errN = r.intn(30), r.intn(20)
-							cfg := BatchCfg{Budget: N, Fb: fb, Conc: conc, Stop: false, ExecS: ex, HasPost: true, Shape: "results", Build: r.pick([]string{"option", "builder"})}
+							cfg := BatchCfg{Budget: N, Fb: fb, Conc: conc, Stop: false, ExecS: ex, HasPost: true, Shape: "results", Build: r.pick([]string{"option", "builder", "bare"}),
+								ExecVia: r.pick([]string{"", "", "copt", "cbuilder"})}
 							bs := BatchScript{N: 0, V: 0, Post: "=done"}
 							bs.Prep = batchItemsPrep(t, "results", nItems)
 							for i := 0; i < nItems; i++ {
@@ -295,7 +296,8 @@ func genBatchSeq(r *rng, thorough bool, emit func(FlowScenario)) {
 						t.next, t.errN = r.intn(30), r.intn(20)
 						shape := r.pick([]string{"results", "results", "anys", "typed"})
 						cfg := BatchCfg{Budget: budget, Fb: r.pick([]string{"pass", "custom"}), Conc: conc, Stop: stop,
-							ExecS: r.pick([]string{"res", "any"}), HasPost: true, Shape: shape, Build: r.pick([]string{"option", "builder"})}
+							ExecS: r.pick([]string{"res", "any"}), HasPost: true, Shape: shape, Build: r.pick([]string{"option", "builder", "bare"}),
+							ExecVia: r.pick([]string{"", "", "copt", "cbuilder"})}
 						bs := BatchScript{N: 0, V: 0, Post: "=done"}
 						bs.Prep = batchItemsPrep(t, shape, n)
 						for i := 0; i < n; i++ {
